@@ -37,6 +37,7 @@ def eworld (nb : Nat) (regs : List Reg) (ch : String) (clock step : Int) : World
   int := .int
   str := .str
   list := .list
+  newList vs := pure (.list vs)
   tuple := .list
   global n := if n == "Event" then pure .eventCls else if n == "list" || n == "tuple" then pure .copyFn else throw "NameError"
   truthy
